@@ -14,23 +14,29 @@ DESIGN_REF = "§5 C17"
 TECHNIQUE = ("Coq proofs (location-key comparison = document order for every pair of paths; streaming three-way differ = declarative "
              "clash/apply specification for all ordered edit streams; vm_compute refutation witnesses for the implemented MergeJSON) + in-Coq "
              "correspondence of IndexedJsonDocument / in-memory JSONDocument / MergeJSON / dolt_merge against the model")
-LEVEL_TEXT = ("Proof, partial (P). Carried by theorems, for every input: (1) loc_order — comparing two serialized jsonLocation keys the way "
+LEVEL_TEXT = ("Proof, partial (P). Carried by theorems, for every input: (1) loc_order (full) — comparing two serialized jsonLocation keys the way "
               "compareJsonLocations does (jsonPathFromKey decoding, then element-wise bytes) equals the document pre-order of the two paths, for every "
-              "pair of paths whose keys contain no 0xFE/0xFF byte and every index encoder that is order preserving and self-delimiting; "
-              "varint_self_delimiting discharges the second condition for uvarint.PutUvarint/varIntLength for every index, order preservation of the "
-              "SQLite4 varint stays a visible hypothesis (loc_order_partial). (2) three_way_spec_partial — the streaming ThreeWayJsonDiffer algorithm "
-              "reports a conflict exactly when some left edit and some right edit clash (same location with different outcome, one inside the other, two "
-              "places of one array) and otherwise yields exactly the right-side edits, for all edit streams strictly increasing in a key order obeying the "
-              "stated order laws and with no two edits of one side nested or in one array. (3) three refutation theorems (vm_compute witnesses, replayed "
-              "on the real code on every run): the faithful model of MergeJSON — raw bytes.Compare on serialized keys, removals applied front to back, "
-              "clash check only between the current stream heads — violates the declarative merge. Resting on correspondence only: that the chunked, "
-              "indexed text representation (cursor, scanner, chunker, span edits) implements the abstract operations; that the model of the in-memory "
-              "operations is go-mysql-server's; that the order laws hold for the document order (they are not proved in Coq).")
+              "pair of paths whose keys contain no 0xFE/0xFF byte, for the real encoder: varint_mono (uvarint.PutUvarint preserves order, every pair of "
+              "indexes) and varint_self_delimiting discharge both hypotheses of loc_order_gen. (2) three_way_doc_spec (no abstract premise) — the "
+              "streaming ThreeWayJsonDiffer algorithm run with the document order reports a conflict exactly when some left and some right edit clash "
+              "and otherwise yields exactly the right-side edits, for all strictly ordered edit streams with no two edits of one side nested or in one "
+              "array; the order laws (antisymmetry, transitivity, prefix-less-than, convexity) are proved for the typed document order. "
+              "(3) json_diff_sorted — the differ emits strictly increasing edit streams for every pair of well-formed documents. (4) merge_json_partial — "
+              "for every triple of well-formed documents satisfying the decidable merge_side_conditions (serialized-key comparison / prefix / same-array "
+              "tests agree with the path-level ones on every left-right pair; no two edits of one side nested or in one array; a removal only as the last "
+              "right-side edit), the model of MergeJSON equals the declarative path-wise merge. (5) op_algebra (partial): unchanged_same (change flag "
+              "false => document unchanged, every mode and path), set_then_lookup, remove_then_lookup (object-key paths); commutation on disjoint paths "
+              "and index legs not proved. (6) three refutation theorems (vm_compute witnesses, replayed on the real code every run) for the full merge "
+              "statement. (7) oracle_on_model_loc / oracle_on_model_merge. Resting on correspondence only: that the chunked, indexed text representation "
+              "(cursor, scanner, chunker, span edits) implements the abstract operations; that the model of the in-memory operations is go-mysql-server's; "
+              "that IsJsonKeyPrefix / JsonKeysModifySameArray on serialized keys equal the path relations (a checked side condition, not a lemma).")
 LEVEL_NOTE = ("Trusted: Coq kernel, Go harness + Python glue. Modelled, not verified: JSON text scanning/escaping, path-string parsing (paths are generated "
               "structurally and printed), number formatting (integers only), go-mysql-server CompareJSON (structural equality on canonical values), "
               "prolly chunking of the document text. Full statement 'merge_json b l r = merge_spec b l r for every triple of documents' is refuted for "
-              "the faithful model and on the implementation (known findings).")
-THEOREMS = ["loc_order_gen", "varint_self_delimiting", "loc_order_partial", "three_way_spec_gen (partial: order laws and per-side unrelatedness as premises)",
+              "the faithful model and on the implementation (known findings); the 'append into an empty array is dropped' finding is a deviation of the "
+              "stored document's set operation from the model, visible as a correspondence mismatch, not as a model-level refutation.")
+THEOREMS = ["loc_order_gen", "varint_self_delimiting", "varint_mono", "loc_order", "three_way_spec_gen", "three_way_doc_spec", "json_diff_sorted",
+            "merge_json_partial", "unchanged_same", "set_then_lookup", "remove_then_lookup", "oracle_on_model_loc", "oracle_on_model_merge",
             "merge_json_refuted_prefix_siblings", "merge_json_refuted_array_shrink", "merge_json_refuted_same_array_convergent"]
 REFUTED = ["merge_json_spec (full): merge_json_refuted_prefix_siblings, merge_json_refuted_array_shrink, merge_json_refuted_same_array_convergent"]
 RULE = ("ops: nested documents (shared key prefixes, keys needing quoting, multi-byte keys, long strings so the text spans several 4 kB chunks) with chains of "
